@@ -61,6 +61,10 @@ Definition d4_fuel (toks : list d4token) : nat := S (length toks).
 Definition eval_d4 (toks : list d4token) (s : asg) : bool :=
   match eval_d4_opt (d4_fuel toks) toks s 1 with Some b => b | None => false end.
 
+(* truth table of the file's function over features 1..n *)
+Definition d4_models (toks : list d4token) (n : nat) : list cfg :=
+  filter (fun m => eval_d4 toks (asg_of m)) (all_cfgs n).
+
 (* largest feature an edge mentions *)
 Definition d4_token_max (t : d4token) : nat :=
   match t with DEdge _ _ fs => fold_right Nat.max 0 (map Z.abs_nat fs) | _ => 0 end.
